@@ -32,7 +32,7 @@ theorem tpc_frame (c : Cfg) {s s' : State} {l : Label} (t : Nat) (hk : (s.tpc t)
     simp only [wakeLabels, List.mem_cons, List.mem_nil_iff, or_false, Label.inc.injEq, Label.ldFlags.injEq,
       Label.ldFutex.injEq, Label.stFutex.injEq, Label.wake.injEq, Label.fAddQ.injEq, reduceCtorEq, false_or, or_false,
       not_false_eq_true] at hl <;>
-    simp only [upd, lockS, unlockS, newHelper] <;> grind [TPc.onWake]
+    simp only [upd, lockS, unlockS, newHelper, nestOn, csOn, nestOff] <;> grind [TPc.onWake]
 
 theorem willWake_onWake {s : State} {t x : Nat} (hw : willWake s t x) : (s.tpc t).onWake = true := by
   unfold willWake at hw
@@ -49,7 +49,7 @@ theorem dflt_frame (c : Cfg) {s s' : State} {l : Label} (hD : InvD c s) (t x : N
   cases l <;> simp only [step] at st <;> (repeat' split at st) <;>
     (first | (simp at st; done) | skip) <;>
     simp only [Option.some.injEq] at st <;> subst st <;>
-    simp only [lockS, unlockS, newHelper] <;> (first | exact hd | grind [TPc.holds, TPc.isAddQ])
+    simp only [lockS, unlockS, newHelper, nestOn, csOn, nestOff] <;> (first | exact hd | grind [TPc.holds, TPc.isAddQ])
 
 theorem willWake_frame (c : Cfg) {s s' : State} {l : Label} (hD : InvD c s) (t x : Nat) (hw : willWake s t x)
     (hl : l ∉ wakeLabels t) (st : step c s l = some s') : willWake s' t x := by
@@ -67,7 +67,7 @@ theorem asleep_frame (c : Cfg) {s s' : State} {l : Label} (x : Nat) (hs : s.hpc 
   cases l <;> simp only [step] at st <;> (repeat' split at st) <;>
     (first | (simp at st; done) | skip) <;>
     simp only [Option.some.injEq] at st <;> subst st <;>
-    simp only [upd, lockS, unlockS, newHelper] <;> grind
+    simp only [upd, lockS, unlockS, newHelper, nestOn, csOn, nestOff] <;> grind
 
 /-- phase A, own steps: a thread that is going to test the futex of the sleeping helper `x` (which reads -1) goes on
 to reset it -/
